@@ -242,3 +242,27 @@ def replay(crate, harness_id, prop, features=None, cbmc_args=None, timeout_s=900
     with open(out_path, "a") as f:
         f.write(f"// native replay verdicts: {json.dumps(verdicts)}\n")
     return {"reproduced": rep, "path": out_path, "detail": json.dumps(verdicts)}
+
+
+def replay_file(path):
+    """re-run a saved Kani concrete-playback test natively against /repo's current tree; returns (reproduced, text)"""
+    txt = open(path).read()
+    m = re.search(r"// concrete playback for (\w+), harness (\S+) of /verif/harness/(\S+)", txt)
+    if not m:
+        return None, "not a Kani playback file"
+    prop, hid, crate = m.groups()
+    crate_dir = os.path.join(VERIF, "harness", crate)
+    work = os.path.join(BUILD, "replay", "manual_" + hashlib.sha1(path.encode()).hexdigest()[:8])
+    shutil.rmtree(work, ignore_errors=True)
+    shutil.copytree(crate_dir, work, ignore=shutil.ignore_patterns("target", "Cargo.lock"))
+    body = "\n".join(l for l in txt.splitlines() if not l.startswith("//"))
+    with open(os.path.join(work, "src", "replay_tests.rs"), "w") as f:
+        f.write("#![allow(unused)]\n" + body)
+    with open(os.path.join(work, "src", "lib.rs"), "a") as f:
+        f.write("\n#[cfg(kani)]\nmod replay_tests;\n")
+    env = dict(ENV, CARGO_TARGET_DIR=os.path.join(work, "target"))
+    pr = subprocess.run(["cargo", "kani", "playback", "-Z", "concrete-playback", "--manifest-path", os.path.join(work, "Cargo.toml"), "--", "kani_concrete_playback"],
+                        stdout=subprocess.PIPE, stderr=subprocess.STDOUT, env=env, cwd=work, text=True, errors="replace")
+    shutil.rmtree(work, ignore_errors=True)
+    failed = "test result: FAILED" in pr.stdout
+    return failed, pr.stdout[-3000:]
